@@ -45,6 +45,10 @@ func runC08(c *Check) {
 	c.Explanation = "Decides the ordering clauses of C08 for every input and every map-iteration seed: every function that can run as a sort's less is a well-formed lexicographic chain whose guards and ordering keys coincide and whose operands are mirror images (strict weak order, R1); the orders of report entries, edges and tags contain an identity key of what they order (total order, R3); every range over a map in non-test code is order-insensitive, or feeds a slice that is sorted by one of those orders before any other use, or is covered by a reviewed exception naming the invariant relied on (R2). Not decided: equality of floating-point layout hints, the external dot binary, goroutine completion order (C16)."
 	parsed := c.comparatorRules()
 	c.totalityRules(parsed)
+	// "however often it has been run in the session": serializing the same profile again
+	// gives the same bytes, because every scratch field is rebuilt from nothing each time
+	c.scratchReset("C08-R5")
+	c.scratchAssignedOnEveryPath("C08-R5")
 	c.mapRules()
 	c.graphConsumers()
 	c.fetchOrder()
